@@ -191,6 +191,11 @@ func runC03(t *testing.T, seed uint64, m *Mask) *Report {
 				return
 			}
 			x.key = world.SessKey(x.sess)
+			if e.Gen.Chance(0.15) {
+				// one of the server's writes on this connection fails after a few bytes: that call may go
+				// unanswered (the connection is gone), but nothing may be answered twice
+				cb.FailWrite(e.Gen.Intn(6), e.Gen.Intn(9))
+			}
 			age, ageN := ageOf[s], ageFrames[s]
 			if age > 0 {
 				x.sess.(interface{ SetContextAge(time.Duration) }).SetContextAge(age)
